@@ -9,6 +9,7 @@ use miette::Diagnostic;
 use nodejs_semver::{Range, SemverError, Version};
 use proptest::prelude::*;
 use proptest::sample::select;
+use serde::{Deserialize, Serialize};
 use serde_json::{json, Value};
 use std::collections::hash_map::DefaultHasher;
 use std::hash::{Hash, Hasher};
@@ -498,6 +499,79 @@ pub fn family_text(name: &str, unit: &str, tail: &str, n: usize) -> String {
     s
 }
 
+/// generated scaling families: a unit of 1..4 soup tokens (one of them may be the running index `{i}`, which
+/// makes all repetitions differ) repeated n and 8n times
+#[derive(Clone, Debug, Serialize, Deserialize)]
+pub struct ScaleCase {
+    pub tokens: Vec<String>,
+    pub tail: String,
+}
+
+pub fn scale_strategy() -> BoxedStrategy<ScaleCase> {
+    let mut toks = gs::soup_tokens();
+    toks.retain(|t| t.len() <= 8);
+    toks.extend(["{i}", "{i}", "{i}", ">={i}", "{i}.", "-{i}", "1.2.{i}", " ", "||", " || ", "1.2.3-", "+", "<", "^", "~", "x", "*"].iter().map(|s| s.to_string()));
+    (proptest::collection::vec(select(toks), 1..=4), select(vec!["", "1.2.3", " <9", "||1", " x"]))
+        .prop_map(|(tokens, tail)| ScaleCase { tokens, tail: tail.to_string() })
+        .boxed()
+}
+
+pub fn scale_text(c: &ScaleCase, n: usize) -> String {
+    let unit = c.tokens.concat();
+    let mut s = String::with_capacity(n * (unit.len() + 4));
+    if unit.contains("{i}") {
+        for i in 1..=n {
+            s.push_str(&unit.replace("{i}", &i.to_string()));
+        }
+    } else {
+        for _ in 0..n {
+            s.push_str(&unit);
+        }
+    }
+    s.push_str(&c.tail);
+    s
+}
+
+pub fn check_scale(c: &ScaleCase, st: &mut Stats) -> Result<(), Failure> {
+    let unit_len = c.tokens.concat().len().max(1) + 2;
+    let n = (16_000 / unit_len).max(200);
+    let (s1, s8) = (scale_text(c, n), scale_text(c, n * 8));
+    let quick = |s: &str| {
+        let t0 = thread_cpu();
+        let _ = std::hint::black_box(Version::parse(s).is_ok());
+        if let Ok(r) = Range::parse(s) {
+            let _ = std::hint::black_box(r.to_string().len());
+            let _ = std::hint::black_box(r.min_version());
+        }
+        thread_cpu() - t0
+    };
+    st.eval(2);
+    let t8 = quick(&s8);
+    if t8 < 0.02 {
+        st.class("scaling:light");
+        return Ok(()); // 130 kB in under 20 ms: nothing super-linear here
+    }
+    let t1 = quick(&s1).max(1e-6);
+    st.class("scaling:timed");
+    st.nontrivial(&c.tokens.concat(), || json!({"unit": c.tokens.concat(), "n": n, "t_n_ms": t1 * 1e3, "t_8n_ms": t8 * 1e3}));
+    if t8 / t1 <= 24.0 {
+        return Ok(());
+    }
+    // suspicious: measure properly (median of 5 each), three times
+    let mut ratios = vec![];
+    for _ in 0..3 {
+        let (a, b) = (time_of(&s1).max(1e-6), time_of(&s8));
+        ratios.push(b / a);
+    }
+    if ratios.iter().all(|r| *r > 24.0) {
+        return Err(Failure::new(
+            "super-linear-time",
+            format!("unit {:?} (tail {:?}): CPU time grows by {:?} when the input grows 8x ({} -> {} repetitions, {} -> {} bytes); linear would be ~8, quadratic ~64", c.tokens.concat(), c.tail, ratios, n, n * 8, s1.len(), s8.len()),
+        ));
+    }
+    Ok(())
+}
+
 pub fn scaling(run: &mut PropRun, cfg: &RunCfg) {
     let base: usize = if cfg.tier == Tier::Thorough { 40_000 } else { 10_000 };
     // one thread per family: CPU time is per thread, so the ratio does not depend on the other threads
@@ -558,7 +632,7 @@ pub fn scaling(run: &mut PropRun, cfg: &RunCfg) {
 
 pub fn run(cfg: &RunCfg) -> PropRun {
     let mut run = PropRun::default();
-    run.rule = "pools of 2..4 input strings (token soup over every token class incl. MAX_SAFE_INTEGER+1, u64::MAX, 2^64, 30-digit numbers, multi-byte and control characters; AST-rendered ranges incl. the finding classes; algebra leaf texts over adjacent versions; spelled versions with edits; limit numbers under every operator; long repetitions; multi-line/over-long texts) + every string up to length 5 over a 14-symbol alphabet + near-limit lengths. For each string both parsers run; on every Ok/Err the whole public surface is called under catch_unwind with overflow checks and debug assertions on: Display/Debug/Clone/==/Hash/serde, every SemverError accessor and miette diagnostic incl. three report handlers, satisfies, min_version, max/min_satisfying, diff, and intersect/difference/allows_all/allows_any on all ordered pairs incl. each value against itself, then on results up to composition depth 3 (operands capped at 64 alternatives). A watchdog turns a >60 s case into exit 2; CPU-time scaling of 30 adversarial families (20 repetitions of one unit, 10 ladders of pairwise different units) is measured at n and 8n. Non-trivial = a pool where a parser succeeded and a binary operation ran, or error accessors ran on a non-ASCII / multi-line input; distinct by the pool.".into();
+    run.rule = "pools of 2..4 input strings (token soup over every token class incl. MAX_SAFE_INTEGER+1, u64::MAX, 2^64, 30-digit numbers, multi-byte and control characters; AST-rendered ranges incl. the finding classes; algebra leaf texts over adjacent versions; spelled versions with edits; limit numbers under every operator; long repetitions; multi-line/over-long texts) + every string up to length 5 over a 14-symbol alphabet + near-limit lengths. For each string both parsers run; on every Ok/Err the whole public surface is called under catch_unwind with overflow checks and debug assertions on: Display/Debug/Clone/==/Hash/serde, every SemverError accessor and miette diagnostic incl. three report handlers, satisfies, min_version, max/min_satisfying, diff, and intersect/difference/allows_all/allows_any on all ordered pairs incl. each value against itself, then on results up to composition depth 3 (operands capped at 64 alternatives). A watchdog turns a >60 s case into exit 2; CPU-time scaling of 30 adversarial families (20 repetitions of one unit, 10 ladders of pairwise different units) is measured at n and 8n, and so are generated families (units of 1..4 soup tokens, optionally with a running index). Non-trivial = a pool where a parser succeeded and a binary operation ran, or error accessors ran on a non-ASCII / multi-line input; distinct by the pool.".into();
     run.assumptions = vec![
         "negative tuple components are outside the property (debug_assert documents the precondition)".into(),
         "binary operations are inherently O(|A||B|) in the number of alternatives; only the parsers and unary operations are held to the linear-time clause".into(),
@@ -595,6 +669,8 @@ pub fn run(cfg: &RunCfg) -> PropRun {
     run.absorb(out);
     risky(&mut run, cfg);
     scaling(&mut run, cfg);
+    let out = campaign(cfg, ID, "generated-scaling", cfg.pick(600, 12_000), scale_strategy, check_scale);
+    run.absorb(out);
     run
 }
 
@@ -891,6 +967,10 @@ pub fn replay(campaign: &str, case: &Value) -> Result<(), Failure> {
     }
     if campaign == "scaling" {
         return Ok(()); // timing findings are re-measured by a full run, not by replay
+    }
+    if campaign == "generated-scaling" {
+        let c: ScaleCase = serde_json::from_value(case.clone()).map_err(|e| Failure::new("bad-replay", e.to_string()))?;
+        return check_scale(&c, &mut Stats::default());
     }
     let pool: Vec<String> = serde_json::from_value(case.clone()).map_err(|e| Failure::new("bad-replay", e.to_string()))?;
     let _ = gv::field;
